@@ -610,6 +610,12 @@ def sec_wrappers(ck):
                 # Box(-inf, inf)): the sample-membership obligation of C14 on that space (reals extended with the IEEE special values: 0 * inf is NaN)
                 from props import C14
                 C14.check_sample(ck, w.action_space, patterns=[("unbounded",)])
+    # rewards through an action wrapper: the wrapped environment's reward is evaluated on the MAPPED (clipped / rescaled) action, i.e. on a member of its
+    # action space, for which the `cc.<env>.reward` obligations bound it -- the delegation obligations of C13 for the action wrappers, discharged here
+    from props import C13
+    for spec in (["ClipAction"], ["RescaleAction"]):
+        with ck.section(f"wrap.reward_of_mapped_action.{spec[0]}"):
+            C13.check_methods(ck, spec, "box")
     with ck.section("wrap.rescale.cartpole"):
         # unbounded components keep infinite targets (the meaningful configuration for a Box with infinite bounds)
         env = CartPole(x_threshold=2.0, theta_threshold_radians=0.25)
